@@ -114,36 +114,6 @@ def counter_ownership(ctx, rule="OWN-global-counter"):
         ctx.ok(rule, "pjax.KeylessWrapper", "flows only into the staged-function slot of initial_style_bind")
 
 
-def seed_sample_branch(ctx, rule="GUARD-seed-sample-branch"):
-    """In Seed the sampling branch never re-binds the primitive (so the global counter is unreachable) and its output
-    depends only on the flat keyful sampler, a fresh sub-key and the equation inputs."""
-    node, mod, loop, chain, orelse = branches_of(ctx, PJ + "Seed.eval_jaxpr_seed")
-    construct = "pjax.Seed.eval_jaxpr_seed[sample]"
-    br = [(t, b, n) for t, b, n in chain if {"sample", "adev_sample"} <= classify_branch(t)]
-    if len(br) != 1:
-        ctx.bad(rule, construct, "one branch handles sample_p and adev_sample_p", f"{len(br)} such branches; tests: {[t for t, _, _ in chain]}", ctx.loc(mod, loop))
-        return
-    t, body, n = br[0]
-    src = [unp(s) for s in body]
-    rebinds = [s for s in src if ".bind(" in s or ".impl(" in s]
-    if rebinds:
-        ctx.bad(rule, construct, "re-binds the primitive", f"sampling branch calls {rebinds}", ctx.loc(mod, n))
-        return
-    assigns = {unp(s.targets[0]): s for s in body if isinstance(s, ast.Assign) and len(s.targets) == 1}
-    split = [s for s in body if isinstance(s, ast.Assign) and unp(s.value) == "jrand.split(self.key)"]
-    ok = len(split) == 1 and isinstance(split[0].targets[0], ast.Tuple) and unp(split[0].targets[0].elts[0]) == "self.key"
-    sub = unp(split[0].targets[0].elts[1]) if ok else None
-    outs = assigns.get("outvals")
-    fk = assigns.get("flat_keyful_sampler")
-    good = ok and outs is not None and isinstance(outs.value, ast.Call) and unp(outs.value.func) == "flat_keyful_sampler" \
-        and outs.value.args and unp(outs.value.args[0]) == sub and fk is not None and unp(fk.value) == "inner_params['flat_keyful_sampler']"
-    if good:
-        rest = [unp(a) for a in outs.value.args[1:]] + ["**" + unp(k.value) for k in outs.value.keywords if k.arg is None]
-        good = rest == ["*args", "**inner_params"]
-    if not good:
-        ctx.bad(rule, construct, "outvals = flat_keyful_sampler(fresh sub-key, *args, **inner_params)", f"found {src}", ctx.loc(mod, n))
-    else:
-        ctx.ok(rule, construct, "no re-bind; output = flat_keyful_sampler(sub_key, *args, **inner_params)")
 
 
 def seed_fresh_interpreter(ctx, rule="OWN-seed-fresh"):
@@ -216,118 +186,9 @@ def flat_cache_key(ctx, rule="DEP-cache-key"):
         ctx.ok(rule, "pjax.FlatSamplerCache.get_flat_sampler", short(k, ev))
 
 
-def interpreter_dispatch_sets(ctx, rule="SIB-interpreter-dispatch"):
-    """Seed and ModularVmap special-case the same primitive set {sample, adev_sample, cond, scan}."""
-    want = {"sample", "adev_sample", "cond", "scan"}
-    for cls, meth in (("Seed", "eval_jaxpr_seed"), ("ModularVmap", "eval_jaxpr_modular_vmap")):
-        node, mod, loop, chain, orelse = branches_of(ctx, PJ + cls + "." + meth)
-        got = set()
-        for t, b, n in chain:
-            got |= classify_branch(t)
-        if got == want:
-            ctx.ok(rule, f"pjax.{cls}.{meth}", f"handles {sorted(got)}")
-        else:
-            ctx.bad(rule, f"pjax.{cls}.{meth}", f"handles {sorted(got)}", f"special-cased primitives {sorted(got)} differ from {sorted(want)}", ctx.loc(mod, loop))
-        # static control flow only: every test in the loop mentions primitives/params/eqn only
-        for st in ast.walk(loop):
-            if isinstance(st, ast.If):
-                src = unp(st.test)
-                if not any(w in src for w in ("primitive", "eqn.", "params", "isinstance")):
-                    ctx.bad("TRC-interpreter", f"pjax.{cls}.{meth}", f"branch on {src}", f"interpreter branches on a possibly traced value: {src}", ctx.loc(mod, st))
 
 
 # ====================================================================== C07
-def key_linearity(ctx, rule="KEY-linearity"):
-    node, mod, loop, chain, orelse = branches_of(ctx, PJ + "Seed.eval_jaxpr_seed")
-    consuming = [(t, b, n) for t, b, n in chain if classify_branch(t) & {"sample", "adev_sample", "cond", "scan"}]
-    ctx.need(len(consuming) == 3, f"KEY-linearity: {len(consuming)} key-consuming branches (floor 3)")
-    for t, body, n in consuming:
-        kind = "+".join(sorted(classify_branch(t)))
-        construct = f"pjax.Seed.eval_jaxpr_seed[{kind}]"
-        splits = []
-        for st in ast.walk(ast.Module(body=body, type_ignores=[])):
-            if isinstance(st, ast.Assign) and isinstance(st.value, ast.Call) and unp(st.value.func) in ("jrand.split", "jax.random.split"):
-                splits.append(st)
-        top = [st for st in body if st in splits]
-        if len(top) != 1 or unp(top[0].value) not in ("jrand.split(self.key)", "jax.random.split(self.key)") or not isinstance(top[0].targets[0], ast.Tuple) \
-                or len(top[0].targets[0].elts) != 2 or unp(top[0].targets[0].elts[0]) != "self.key":
-            ctx.bad(rule, construct, "self.key, sub_key = split(self.key)", f"key advance not found or malformed: {[unp(s) for s in top]}", ctx.loc(mod, n))
-            continue
-        sub = unp(top[0].targets[0].elts[1])
-        # reads of self.key other than the split itself
-        reads = [x for st in body for x in ast.walk(st) if isinstance(x, ast.Attribute) and unp(x) == "self.key" and isinstance(x.ctx, ast.Load)]
-        if len(reads) != 1:
-            ctx.bad(rule, construct, "interpreter key read only by its own split", f"{len(reads)} reads of self.key in the branch", ctx.loc(mod, n))
-            continue
-        # uses of the sub key after the split, excluding nested function bodies that rebind the name
-        uses = []
-        after = body[body.index(top[0]) + 1:]
-        for st in after:
-            for x in ast.walk(st):
-                if isinstance(x, ast.Name) and x.id == sub and isinstance(x.ctx, ast.Load):
-                    uses.append(x)
-        # a nested def that assigns `sub` locally shadows it: discount those
-        shadow = 0
-        for st in after:
-            for f in ast.walk(st):
-                if isinstance(f, ast.FunctionDef):
-                    assigned = {t.id for a in ast.walk(f) if isinstance(a, ast.Assign) for t in ast.walk(a.targets[0]) if isinstance(t, ast.Name)}
-                    if sub in assigned:
-                        shadow += sum(1 for x in ast.walk(f) if isinstance(x, ast.Name) and x.id == sub and isinstance(x.ctx, ast.Load))
-        n_uses = len(uses) - shadow
-        if n_uses != 1:
-            ctx.bad(rule, construct, "sub-key consumed exactly once", f"sub-key `{sub}` is read {n_uses} times after the split", ctx.loc(mod, n))
-        else:
-            ctx.ok(rule, construct, f"split once, `{sub}` consumed once")
-    # scan body: fold_in(key, idx) with the scanned index; carried key returned unchanged
-    t, body, n = [c for c in consuming if "scan" in classify_branch(c[0])][0]
-    construct = "pjax.Seed.eval_jaxpr_seed[scan].new_body"
-    fns = [f for st in body for f in ast.walk(st) if isinstance(f, ast.FunctionDef)]
-    ctx.need(len(fns) == 1, "Seed scan branch: body function not found")
-    f = fns[0]
-    src = {unp(st.targets[0]): unp(st.value) for st in f.body if isinstance(st, ast.Assign)}
-    ret = [unp(st.value) for st in f.body if isinstance(st, ast.Return)]
-    carry_p, xs_p = f.args.args[0].arg, f.args.args[1].arg
-    keyname = idxname = None
-    for k, v in src.items():
-        if v == carry_p and k.startswith("("):
-            keyname = k.strip("()").split(",")[0].strip()
-        if v == xs_p and k.startswith("("):
-            idxname = k.strip("()").split(",")[0].strip()
-    fold = [k for k, v in src.items() if v.replace("jax.random", "jrand") == f"jrand.fold_in({keyname}, {idxname})"]
-    seeded = [st for st in ast.walk(f) if isinstance(st, ast.Call) and isinstance(st.func, ast.Call) and unp(st.func.func) == "seed"]
-    ok = keyname and idxname and len(fold) == 1 and len(seeded) == 1 and seeded[0].args and unp(seeded[0].args[0]) == fold[0] \
-        and ret and ret[0].replace(" ", "").startswith(f"(({keyname},")
-    if not ok:
-        ctx.bad(rule, construct, "per-iteration key = fold_in(carried key, scanned index); carried key unchanged",
-                f"key={keyname} idx={idxname} fold={fold} nested-seed-key={[unp(s.args[0]) for s in seeded if s.args]} return={ret}", ctx.loc(mod, f))
-    else:
-        # the scanned index really is arange(length) zipped with xs, and the carry starts with the fresh sub-key
-        scan_calls = [c for st in body for c in ast.walk(st) if isinstance(c, ast.Call) and unp(c.func) == "scan"]
-        prov = {unp(st.targets[0]): unp(st.value) for st in body if isinstance(st, ast.Assign)}
-        good = len(scan_calls) == 1 and len(scan_calls[0].args) >= 3 and unp(scan_calls[0].args[1]).replace(" ", "").startswith("(sub_key,") is not None
-        init = unp(scan_calls[0].args[1]) if scan_calls else ""
-        xs = unp(scan_calls[0].args[2]) if scan_calls and len(scan_calls[0].args) > 2 else ""
-        idx_src = xs.strip("()").split(",")[0].strip()
-        if not (good and prov.get(idx_src, "").replace(" ", "") in ("jnp.arange(length)",) and init.strip("()").split(",")[0].strip() != "self.key"):
-            ctx.bad(rule, construct, "scan init = (fresh sub-key, carry); xs = (arange(length), xs)", f"init={init} xs={xs} index source={prov.get(idx_src)}", ctx.loc(mod, f))
-        else:
-            ctx.ok(rule, construct, "fold_in(key, idx) per iteration with idx from arange(length); carried key returned unchanged")
-    # cond: one sub-key handed to switch; every branch seeded
-    t, body, n = [c for c in consuming if "cond" in classify_branch(c[0])][0]
-    construct = "pjax.Seed.eval_jaxpr_seed[cond]"
-    sw = [c for st in body for c in ast.walk(st) if isinstance(c, ast.Call) and unp(c.func) == "switch"]
-    prov = {unp(st.targets[0]): st.value for st in body if isinstance(st, ast.Assign)}
-    br = prov.get("branches")
-    ok = len(sw) == 1 and len(sw[0].args) >= 3 and unp(sw[0].args[1]) == "branches" and br is not None and "seed(" in unp(br) and "for branch in" in unp(br)
-    if ok:
-        sub = [k for k in prov if k.startswith("(self.key,") or k.startswith("self.key,")]
-        subname = sub[0].strip("()").split(",")[1].strip() if sub else None
-        ok = unp(sw[0].args[2]) == subname and unp(sw[0].args[0]) in ("index_val",)
-    if not ok:
-        ctx.bad(rule, construct, "switch(index, seeded branches, sub_key, *operands)", f"found {[unp(c) for c in sw]} with branches = {unp(br) if br is not None else None}", ctx.loc(mod, n))
-    else:
-        ctx.ok(rule, construct, "every branch seeded and given the same fresh sub-key")
 
 
 def vmap_lane_randomness(ctx, rule="SHAPE-lanes"):
@@ -466,100 +327,8 @@ def sample_shape_threading(ctx, rule="ROLE-sample_shape"):
 
 
 # ====================================================================== C08
-def dummy_protocol(ctx, rule="SIB-dummy-arg"):
-    """ModularVmap injects exactly one leading dummy operand when re-binding a sampling primitive; every consumer strips one."""
-    node, mod, loop, chain, orelse = branches_of(ctx, PJ + "ModularVmap.eval_jaxpr_modular_vmap")
-    br = [(t, b, n) for t, b, n in chain if {"sample", "adev_sample"} <= classify_branch(t)]
-    construct = "pjax.ModularVmap.eval_jaxpr_modular_vmap[sample]"
-    if len(br) != 1:
-        ctx.bad(rule, construct, "one branch re-binds sample_p/adev_sample_p", f"{len(br)} branches", ctx.loc(mod, loop))
-        return
-    t, body, n = br[0]
-    binds = [c for st in body for c in ast.walk(st) if isinstance(c, ast.Call) and unp(c.func) == "eqn.primitive.bind"]
-    if len(binds) != 1:
-        ctx.bad(rule, construct, "re-bind", f"{len(binds)} bind calls", ctx.loc(mod, n))
-        return
-    b = binds[0]
-    pos = [unp(a) for a in b.args]
-    kws = {k.arg: unp(k.value) for k in b.keywords}
-    injected = len([a for a in pos if not a.startswith("*")])
-    good = pos == ["dummy_arg", "*args"] and kws.get("axis_size") == "axis_size" and kws.get("ctx") == "'modular_vmap'" and kws.get(None) == "params"
-    if not good:
-        ctx.bad(rule, construct, "bind(dummy_arg, *args, axis_size=axis_size, ctx='modular_vmap', **params)", f"found bind({', '.join(pos)}, {kws})", ctx.loc(mod, b))
-    else:
-        ctx.ok(rule, construct, "injects 1 dummy operand, forwards the original params")
-    # readers
-    anode, amod = fnode(ctx, PJ + "initial_style_bind")
-    abstract = [f for f in ast.walk(anode) if isinstance(f, ast.FunctionDef) and f.name == "abstract"]
-    ctx.need(len(abstract) == 1, "initial_style_bind.abstract not found")
-    strips = [st for st in ast.walk(abstract[0]) if isinstance(st, ast.Assign) and unp(st.targets[0]) == "flat_avals"]
-    guard_ok = any(isinstance(i, ast.If) and "modular_vmap" in unp(i.test) and "ctx" in unp(i.test) and any(s is x for x in ast.walk(i) for s in strips) for i in ast.walk(abstract[0]))
-    if len(strips) != 1 or unp(strips[0].value) != f"flat_avals[{injected}:]" or not guard_ok:
-        ctx.bad(rule, "pjax.initial_style_bind.abstract", "strips the dummy aval under ctx == 'modular_vmap'", f"found {[unp(s) for s in strips]} guarded={guard_ok}", ctx.loc(amod, abstract[0]))
-    else:
-        ctx.ok(rule, "pjax.initial_style_bind.abstract", f"strips {injected} leading aval under ctx == 'modular_vmap'")
-    hnode, hmod = fnode(ctx, PJ + "VmapBatchHandler._handle_modular_vmap")
-    s_ = {unp(st.targets[0]): unp(st.value) for st in hnode.body if isinstance(st, ast.Assign)}
-    if s_.get("vector_args") != f"tuple(vector_args[{injected}:])" or s_.get("batch_axes") != f"tuple(batch_axes[{injected}:])":
-        ctx.bad(rule, "pjax.VmapBatchHandler._handle_modular_vmap", "strips the dummy operand and its axis", f"vector_args={s_.get('vector_args')} batch_axes={s_.get('batch_axes')}", ctx.loc(hmod, hnode))
-    else:
-        ctx.ok(rule, "pjax.VmapBatchHandler._handle_modular_vmap", f"strips {injected} leading operand and axis")
-    # the batch rule accepts only the modular_vmap context (C14 shares this)
-    bnode, bmod = fnode(ctx, PJ + "VmapBatchHandler.create_batch_rule")
-    # ModularVmap.eval pairs (dummy, args) with in_axes (0, in_axes)
-    ev = mk_ev(ctx)
-    s = summarize(ctx, ev, PJ + "ModularVmap.eval")
-    lanes = [x for x in subterms(s.ret) if x[0] == "lanes"]
-    ok = False
-    if lanes:
-        rec = ev.vmaps[lanes[0][1]]
-        ok = rec["which"] == "jax.vmap" and rec["in_axes"] == ("tuple", (C(0), ("param", "in_axes"))) and len(rec["args"]) == 2 and rec["args"][1] == ("param", "args")
-        f = rec["f"]
-        ok = ok and f[0] == "partial" and f[1] == N(PJ + "ModularVmap.stage_and_run") and len(f[2]) == 2 and f[2][1] == ("param", "fn")
-        size = f[2][0] if ok else None
-        want_size = ("ifexp", ("cmp", "is", ("param", "axis_size"), NONE), call(N(PJ + "static_dim_length"), ("param", "in_axes"), ("param", "args")), ("param", "axis_size"))
-        ok = ok and size == want_size and ev.kwget(rec["opts"], "axis_size") == want_size
-    if ok:
-        ctx.ok(rule, "pjax.ModularVmap.eval", "jax.vmap(stage_and_run(axis_size, fn), in_axes=(0, in_axes))(dummy, args)")
-    else:
-        ctx.bad(rule, "pjax.ModularVmap.eval", "jax.vmap(partial(stage_and_run, axis_size, fn), in_axes=(0, in_axes), axis_size=axis_size)(dummy, args)", f"found {short(s.ret, ev, 300)}", func_loc(ctx, PJ + "ModularVmap.eval"))
 
 
-def logdensity_batch_rule(ctx, rule="ROLE-logdensity-batch"):
-    node, mod = fnode(ctx, PJ + "LogDensityVmapHandler.create_batch_rule")
-    construct = "pjax.LogDensityVmapHandler.batch_rule"
-    fns = [f for f in ast.walk(node) if isinstance(f, ast.FunctionDef) and f.name == "batch_rule"]
-    ctx.need(len(fns) == 1, "log-density batch rule not found")
-    f = fns[0]
-    prov = {unp(st.targets[0]): unp(st.value) for st in ast.walk(f) if isinstance(st, ast.Assign) and len(st.targets) == 1}
-    failed = False
-
-    def bad(key, what, n=f):
-        nonlocal failed
-        failed = True
-        ctx.bad(rule, construct, key, what, ctx.loc(mod, n))
-
-    if prov.get("batch_tree", "").replace("jax.tree_util", "jtu") != "jtu.tree_unflatten(params['in_tree'], batch_axes[num_consts:])":
-        bad("in-axes tree rebuilt from this site's batch axes", f"batch_tree = {prov.get('batch_tree')}")
-    if prov.get("in_tree", "").replace("jax.tree_util", "jtu") != "jtu.tree_unflatten(params['in_tree'], vector_args[num_consts:])":
-        bad("operands rebuilt from this site's vector args", f"in_tree = {prov.get('in_tree')}")
-    if prov.get("num_consts") != "params['num_consts']":
-        bad("constants skipped by the site's num_consts", f"num_consts = {prov.get('num_consts')}")
-    vm = [c for c in ast.walk(f) if isinstance(c, ast.Call) and unp(c.func) == "jax.vmap"]
-    if len(vm) != 2:
-        bad("density vmapped (args-only and args+kwargs forms)", f"{len(vm)} jax.vmap calls")
-    for c in vm:
-        kw = {k.arg: unp(k.value) for k in c.keywords}
-        if kw.get("in_axes") != "batch_tree":
-            bad("jax.vmap(density, in_axes=batch_tree)", f"found in_axes={kw.get('in_axes')}", c)
-        target = unp(c.args[0]) if c.args else ""
-        if "self.config.log_density_impl" not in target:
-            bad("the site's own density is vmapped", f"found {target}", c)
-    oa = prov.get("out_axes")
-    if oa != "(0 if n else None,)" or prov.get("n") != "static_dim_length(batch_axes, tuple(vector_args))":
-        bad("out axis 0 iff some operand is batched", f"out_axes = {oa}; n = {prov.get('n')}")
-    if not failed:
-        ctx.ok(rule, construct, "density vmapped with the in-axes tree rebuilt from this site's batch axes")
 
 
 def first_leaf_guard(ctx, rule="KIND-first-leaf"):
@@ -602,170 +371,15 @@ def sample_batch_axes(ctx, rule="DEP-batch-axes"):
         ctx.ok(rule, "pjax.VmapBatchHandler._handle_modular_vmap")
 
 
-def modular_vmap_wrapper(ctx, rule="ROLE-modular_vmap"):
-    node, mod = fnode(ctx, PJ + "modular_vmap")
-    inner = [f for f in ast.walk(node) if isinstance(f, ast.FunctionDef) and f.name != "modular_vmap"]
-    ctx.need(len(inner) == 1, "modular_vmap.wrapped not found")
-    w = inner[0]
-    calls = [c for c in ast.walk(w) if isinstance(c, ast.Call) and unp(c.func) == "interpreter.eval"]
-    good = len(calls) == 1 and [unp(a) for a in calls[0].args] == ["in_axes", "axis_size", "axis_name", "spmd_axis_name", "f", "*args"]
-    if good:
-        ctx.ok(rule, "pjax.modular_vmap.wrapped")
-    else:
-        ctx.bad(rule, "pjax.modular_vmap.wrapped", "eval(in_axes, axis_size, axis_name, spmd_axis_name, f, *args)", f"found {[unp(c) for c in calls]}", ctx.loc(mod, w))
-    # scan/cond inside the mapped function keep the dummy and the axis size
-    node, mod, loop, chain, orelse = branches_of(ctx, PJ + "ModularVmap.eval_jaxpr_modular_vmap")
-    for t, body, n in chain:
-        k = classify_branch(t)
-        if "scan" in k:
-            src = " ".join(unp(s) for s in body)
-            ok = "partial(ModularVmap.stage_and_run, axis_size, jex.core.jaxpr_as_fun(body_jaxpr))" in src and "(dummy_arg, *carry_vals)" in src \
-                and "return ((dummy, *out_carry), out_scan)" in src.replace("\n", " ") and "length=length" in src and "reverse=reverse" in src
-            if ok:
-                ctx.ok(rule, "pjax.ModularVmap[scan]")
-            else:
-                ctx.bad(rule, "pjax.ModularVmap[scan]", "scan re-issued with the dummy threaded through the carry", "shape changed", ctx.loc(mod, n))
-        if "cond" in k:
-            src = " ".join(unp(s) for s in body)
-            ok = "partial(ModularVmap.stage_and_run, axis_size, jex.core.jaxpr_as_fun(branch))" in src and "switch(index_val, branches, dummy_arg, ops_vals)" in src
-            if ok:
-                ctx.ok(rule, "pjax.ModularVmap[cond]")
-            else:
-                ctx.bad(rule, "pjax.ModularVmap[cond]", "switch over re-interpreted branches with the dummy", "shape changed", ctx.loc(mod, n))
 
 
 # ====================================================================== C14
-def lowering_guard(ctx, rule="GUARD-lowering"):
-    node, mod = fnode(ctx, PJ + "InitialStylePrimitive.__init__")
-    low = [f for f in ast.walk(node) if isinstance(f, ast.FunctionDef) and f.name == "lowering"]
-    ctx.need(len(low) == 1, "InitialStylePrimitive.lowering not found")
-    f = low[0]
-    construct = "pjax.InitialStylePrimitive.lowering"
-    ifs = [st for st in f.body if isinstance(st, ast.If)]
-    ok = False
-    if ifs:
-        first = ifs[0]
-        t1 = unp(first.test).replace('"', "'")
-        warn_ok = t1 == "'lowering_warning' in params and lowering_warning"
-        el = first.orelse[0] if len(first.orelse) == 1 and isinstance(first.orelse[0], ast.If) else None
-        if warn_ok and el is not None:
-            t2 = unp(el.test).replace('"', "'")
-            raises = [s for s in el.body if isinstance(s, ast.Raise)]
-            ok = t2 == "'lowering_exception' in params and enforce_lowering_exception" and len(raises) == 1 and unp(raises[0].exc).replace('"', "'") == "params['lowering_exception']"
-    # nothing lowers before the guard
-    pre = [st for st in f.body if st not in ifs and f.body.index(st) < (f.body.index(ifs[0]) if ifs else 0)]
-    if ok and not pre:
-        ctx.ok(rule, construct, "raises params['lowering_exception'] unless the warning flag is set")
-    else:
-        ctx.bad(rule, construct, "raise the dedicated exception before lowering", f"guard shape changed: {[unp(i.test) for i in ifs]}", ctx.loc(mod, f))
-    # flags: module-level constants, never written elsewhere
-    m = ctx.p.modules["genjax.pjax"]
-    for flag, want in (("enforce_lowering_exception", True), ("lowering_warning", False)):
-        v = m.defs.get(flag)
-        good = isinstance(v, ast.Constant) and v.value is want
-        writes = []
-        for mn, mm in ctx.p.modules.items():
-            for n in ast.walk(mm.tree):
-                if isinstance(n, (ast.Assign, ast.AugAssign, ast.AnnAssign)):
-                    tg = n.targets if isinstance(n, ast.Assign) else [n.target]
-                    for t in tg:
-                        if (isinstance(t, ast.Name) and t.id == flag) or (isinstance(t, ast.Attribute) and t.attr == flag):
-                            writes.append((mn, n.lineno))
-                if isinstance(n, ast.Global) and flag in n.names:
-                    writes.append((mn, n.lineno))
-                if isinstance(n, ast.Call) and unp(n.func) in ("setattr",) and any(isinstance(a, ast.Constant) and a.value == flag for a in n.args):
-                    writes.append((mn, n.lineno))
-        if good and len(writes) == 1:
-            ctx.ok("OWN-lowering-flags", f"pjax.{flag}", f"module constant {want}, no other writer")
-        else:
-            ctx.bad("OWN-lowering-flags", f"pjax.{flag}", "module-level constant, single writer", f"value={unp(v) if v is not None else None}, writers={writes}", "src/genjax/pjax.py")
-    # PPPrimitive forwards lowering with the hidden params
-    node, mod = fnode(ctx, PJ + "PPPrimitive.__init__")
-    low = [f for f in ast.walk(node) if isinstance(f, ast.FunctionDef) and f.name == "lowering"]
-    ok = len(low) == 1 and unp(low[0].body[0]) == "return self.prim.lowering(*args, **self.params, **params)" and "mlir.register_lowering(self, lowering)" in unp(node)
-    if ok:
-        ctx.ok(rule, "pjax.PPPrimitive.lowering", "forwards to the wrapped primitive's guard with the hidden params")
-    else:
-        ctx.bad(rule, "pjax.PPPrimitive.lowering", "forward with hidden params", "shape changed", ctx.loc(mod, node))
-    init = unp(fnode(ctx, PJ + "InitialStylePrimitive.__init__")[0])
-    if "mlir.register_lowering(self, lowering)" not in init:
-        ctx.bad(rule, "pjax.InitialStylePrimitive", "lowering registered", "mlir.register_lowering(self, lowering) missing", "src/genjax/pjax.py")
 
 
-def sample_bind_sites(ctx, rule="OWN-sample-bind"):
-    """sample_p / adev_sample_p are bound only through create_sample_primitive, always with the exception and the context."""
-    node, mod = fnode(ctx, PJ + "create_sample_primitive")
-    binds = [c for c in ast.walk(node) if isinstance(c, ast.Call) and unp(c.func) == "initial_style_bind"]
-    construct = "pjax.create_sample_primitive"
-    if len(binds) != 1:
-        ctx.bad(rule, construct, "one bind site", f"{len(binds)} initial_style_bind calls", ctx.loc(mod, node))
-    else:
-        b = binds[0]
-        kw = {k.arg: unp(k.value) for k in b.keywords}
-        pos = [unp(a) for a in b.args]
-        need = {"lowering_exception": "lowering_exception", "lowering_warning": "lowering_msg", "batch": "batch_rule", "flat_keyful_sampler": "flat_keyful_sampler",
-                "sample_shape": "config.sample_shape", "keyful_sampler": "config.keyful_sampler"}
-        miss = {k: kw.get(k) for k, v in need.items() if kw.get(k) != v}
-        prov = {unp(st.targets[0]): unp(st.value) for st in ast.walk(node) if isinstance(st, ast.Assign) and len(st.targets) == 1}
-        exc = prov.get("lowering_exception", "")
-        if pos != ["config.primitive"] or miss or not exc.startswith("LoweringSamplePrimitiveToMLIRException(") or kw.get(None) != "config.primitive_params":
-            ctx.bad(rule, construct, "bind carries the lowering exception, warning, batch rule and flat sampler", f"primitive={pos} mismatched={miss} exception={exc[:60]}", ctx.loc(mod, b))
-        else:
-            ctx.ok(rule, construct, "every sampling site is bound with lowering_exception/lowering_warning/batch/flat_keyful_sampler")
-    # who else mentions sample_p / adev_sample_p in a bind position
-    others = []
-    for mn, mm in ctx.p.modules.items():
-        for c in ast.walk(mm.tree):
-            if isinstance(c, ast.Call) and unp(c.func) == "initial_style_bind" and c.args and unp(c.args[0]) in ("sample_p", "adev_sample_p"):
-                others.append((mn, c.lineno))
-            if isinstance(c, ast.Call) and unp(c.func) in ("sample_p.bind", "adev_sample_p.bind"):
-                others.append((mn, c.lineno))
-    if others:
-        ctx.bad(rule, "sample_p/adev_sample_p", "bound outside create_sample_primitive", f"direct bind sites {others}", f"{others[0][0]}:{others[0][1]}")
-    else:
-        ctx.ok(rule, "sample_p/adev_sample_p", "no direct bind site outside create_sample_primitive")
-    # users select the primitive only through SamplerConfig.primitive (sample_binder(primitive=...))
-    uses = []
-    for mn, mm in ctx.p.modules.items():
-        for c in ast.walk(mm.tree):
-            if isinstance(c, ast.keyword) and c.arg == "primitive" and unp(c.value) in ("sample_p", "adev_sample_p"):
-                uses.append((mn, unp(c.value)))
-    ctx.sample({"rule": rule, "primitive selections": uses})
 
 
-def vmap_context_guard(ctx, rule="GUARD-plain-vmap"):
-    node, mod = fnode(ctx, PJ + "VmapBatchHandler.create_batch_rule")
-    fns = [f for f in ast.walk(node) if isinstance(f, ast.FunctionDef) and f.name == "batch_rule"]
-    ctx.need(len(fns) == 1, "sample batch rule not found")
-    f = fns[0]
-    ifs = [st for st in f.body if isinstance(st, ast.If)]
-    ok = False
-    if len(ifs) == 1 and len(f.body) == 1:
-        t = unp(ifs[0].test).replace('"', "'")
-        els = ifs[0].orelse
-        ok = t == "'ctx' in params and params['ctx'] == 'modular_vmap'" and len(els) == 1 and isinstance(els[0], ast.Raise) \
-            and len(ifs[0].body) == 1 and isinstance(ifs[0].body[0], ast.Return) and "_handle_modular_vmap" in unp(ifs[0].body[0])
-    if ok:
-        ctx.ok(rule, "pjax.VmapBatchHandler.batch_rule", "raises on every path where ctx != 'modular_vmap'")
-    else:
-        ctx.bad(rule, "pjax.VmapBatchHandler.batch_rule", "plain jax.vmap over a sampling site raises", f"found {unp(f)[:300]}", ctx.loc(mod, f))
 
 
-def seed_fallthrough(ctx, rule="EXH-seed-fallthrough"):
-    """Seed's fall-through `eqn.primitive.bind` must not be reachable for equations that carry a sub-jaxpr with a sampling
-    site: primitives whose eager evaluation interprets a sub-jaxpr in Python re-enter sample_p.bind -> impl -> global counter."""
-    node, mod, loop, chain, orelse = branches_of(ctx, PJ + "Seed.eval_jaxpr_seed")
-    src = " ".join(unp(s) for s in orelse)
-    construct = "pjax.Seed.eval_jaxpr_seed[else]"
-    ctx.need("eqn.primitive.bind(" in src, "Seed fall-through bind not found (anchor vanished)")
-    guarded = any(w in src for w in ("raise", "jaxprs_in_params", "subjaxprs", "jaxpr" ))
-    if guarded:
-        ctx.ok(rule, construct, "fall-through inspects sub-jaxprs or raises")
-    else:
-        ctx.bad(rule, construct, "unguarded eqn.primitive.bind(*args, **params)",
-                "higher-order primitives other than cond/scan (custom_jvp_call, custom_vjp_call, checkpoint/remat, closed_call, pjit evaluated eagerly) are re-bound as is: "
-                "a sampling site inside them is evaluated by the primitive's impl with the process-global counter key, silently, in an eagerly executed seed(f); "
-                "input: seed(f)(key) with f sampling inside jax.checkpoint or inside a custom_jvp function", ctx.loc(mod, orelse[0] if orelse else loop))
 
 
 def closure_in(t):
